@@ -70,8 +70,13 @@ func tryRecv(v reflect.Value) (val reflect.Value, ok bool, selected bool) {
 func (cs *chanState) canRecv() bool {
 	return len(cs.buf) > 0 || len(cs.sendq) > 0 || cs.externallyClosed()
 }
+// A thread registers its pending operation in sendq/recvq before it parks at the scheduling
+// point, whether or not Go would block it. A registered receiver is a *waiting* receiver in Go's
+// sense only while the buffer is empty, and a registered sender a *blocked* sender only while
+// the buffer is full: hand-offs and wake-ups below are restricted to those cases, everything
+// else is left to the partner's own scheduling step.
 func (cs *chanState) canSend() bool {
-	return cs.closed || len(cs.buf) < cs.cap || len(cs.recvq) > 0
+	return cs.closed || len(cs.buf) < cs.cap || (len(cs.buf) == 0 && len(cs.recvq) > 0)
 }
 
 func removeWaiter(q []*waiter, w *waiter) []*waiter {
@@ -87,10 +92,11 @@ func removeWaiter(q []*waiter, w *waiter) []*waiter {
 func (cs *chanState) doRecv(w *waiter) string {
 	switch {
 	case len(cs.buf) > 0:
+		wasFull := len(cs.buf) == cs.cap
 		w.got, w.ok = cs.buf[0], true
 		cs.buf = cs.buf[1:]
-		// a blocked sender can now move its value into the buffer
-		if len(cs.sendq) > 0 {
+		// a sender blocked on the full buffer now moves its value into the buffer
+		if wasFull && len(cs.sendq) > 0 {
 			s := cs.sendq[0]
 			cs.sendq = cs.sendq[1:]
 			cs.buf = append(cs.buf, s.val)
@@ -116,7 +122,7 @@ func (cs *chanState) doSend(w *waiter) string {
 	case cs.closed:
 		w.ok = false
 		return "closed"
-	case len(cs.recvq) > 0:
+	case len(cs.buf) == 0 && len(cs.recvq) > 0:
 		r := cs.recvq[0]
 		cs.recvq = cs.recvq[1:]
 		r.got, r.ok = w.val, true
@@ -334,8 +340,9 @@ func Close[T any](ch chan<- T) {
 			return "double"
 		}
 		cs.closed = true
-		// every parked receiver gets the zero value; parked senders panic when resumed
-		for len(cs.recvq) > 0 {
+		// every waiting receiver gets the zero value (receivers registered while the buffer still
+		// holds values drain it first, in their own steps); parked senders panic when resumed
+		for len(cs.buf) == 0 && len(cs.recvq) > 0 {
 			r := cs.recvq[0]
 			cs.recvq = cs.recvq[1:]
 			r.got, r.ok = nil, false
